@@ -98,8 +98,9 @@ def donor(kind):
         edges = []
         inter = [('position_restraints', (0,), ('1', '1000'), 0)]
     else:
-        spec = [(5, {'resid': 1, 'charge_group': 1, 'atomname': 'DA', 'chain': 'B'}),
-                (3, {'resid': 2, 'charge_group': 2, 'atomname': 'DB', 'chain': 'B'})]
+        # numbered from 0: a legitimate residue number / charge group that is falsy
+        spec = [(5, {'resid': 0, 'charge_group': 0, 'atomname': 'DA', 'chain': 'B'}),
+                (3, {'resid': 1, 'charge_group': 1, 'atomname': 'DB', 'chain': 'B'})]
         edges = [(5, 3)]
         inter = [('bonds', (5, 3), ('1', '0.3'), 0), ('bonds', (5, 3), ('1', '0.4'), 1)]
     for k, a in spec:
@@ -148,6 +149,9 @@ class Spec:
             keys, edges, inter = [], [], []
         for n, k in enumerate(keys):
             a = attrs_for(k, n)
+            if initial == 'two':
+                a['resid'] -= 1          # this molecule is numbered from 0
+                a['charge_group'] -= 1
             mol.add_node(k, **a)
             model.nodes[k] = dict(a)
         for a, b in edges:
